@@ -564,6 +564,17 @@ func (c *Ctx) c18NewickText() ([]byte, string) {
 			i := c.Intn(len(text))
 			text = slices.Insert(slices.Clone(text), i, []byte("(),:;' x")[c.Intn(8)])
 			strat = "newick/spliced-delimiter"
+		case 2:
+			// a syntactically fine distance that float64 cannot hold (ParseFloat: ErrRange)
+			// or that is not a number at all, in one of the trees
+			lit := []string{":1e999", ":-1e400", ":1e309", ":0x1p1024", ":1e", ":--1", ":1.2.3"}[c.Intn(7)]
+			bad := []string{"(a" + lit + ",b)c;", "x" + lit + ";", "((p,q)r" + lit + ",s);"}[c.Intn(3)]
+			if c.Intn(2) == 0 {
+				text = append([]byte(bad+"\n"), text...) // first tree of the stream
+			} else if i := bytes.IndexByte(text, ';'); i >= 0 {
+				text = slices.Insert(slices.Clone(text), i+1, []byte(bad)...) // second tree
+			}
+			strat = "newick/unrepresentable-distance"
 		}
 	}
 	return text, strat
@@ -793,10 +804,13 @@ var kTotalFasta = register(&Kind{Name: "total_fasta",
 		}
 		data, isErr := c11Stream(in)
 		i := 0
+		immediate := Val{K: 'l'} // every item encoded at the moment it is yielded
 		for fa, err := range fasta.Reader(totStream(data, isErr)) {
 			if err != nil {
+				immediate.L = append(immediate.L, L(I(1)))
 				break
 			}
+			immediate.L = append(immediate.L, L(I(0), vFasta(fa.Name, fa.Sequence)))
 			i++
 			if !nameOK(fa.Name) || !seqOK(fa.Sequence) {
 				continue
@@ -805,10 +819,17 @@ var kTotalFasta = register(&Kind{Name: "total_fasta",
 			if err := fa.Write(&buf); err != nil {
 				return fmt.Sprintf("accepted record %d cannot be written", i)
 			}
+			// the other writer must agree (MarshalText has its own length self-check)
+			if mt, ok := try1(func() []byte { b, _ := fa.MarshalText(); return b }); !ok || !bytes.Equal(mt, buf.Bytes()) {
+				return fmt.Sprintf("accepted record %d: MarshalText panics or differs from Write", i)
+			}
 			want := L(L(I(0), vFasta(fa.Name, fa.Sequence)))
 			if got := fastaItems(fasta.Reader(&buf), 4); got.String() != want.String() {
 				return fmt.Sprintf("accepted record %d is not a fixed point: written and read back it is %s, want %s", i, clip(got.String()), clip(want.String()))
 			}
+		}
+		if !isErr && immediate.String() != out.String() {
+			return "accepted records are not stable: a record changed after it was delivered (items encoded when yielded differ from the same items encoded after the iteration)"
 		}
 		return ""
 	}})
@@ -824,10 +845,13 @@ var kTotalFastq = register(&Kind{Name: "total_fastq",
 		}
 		data, isErr := c11Stream(in)
 		i := 0
+		immediate := Val{K: 'l'} // every item encoded at the moment it is yielded
 		for fq, err := range fastq.Reader(totStream(data, isErr)) {
 			if err != nil {
+				immediate.L = append(immediate.L, L(I(1)))
 				break
 			}
+			immediate.L = append(immediate.L, L(I(0), fqRecVal(fq.Name, fq.Sequence, fq.Quals)))
 			i++
 			if !fqFieldOK(fq.Name) || !fqFieldOK(fq.Sequence) || !fqFieldOK(fq.Quals) {
 				continue
@@ -838,9 +862,16 @@ var kTotalFastq = register(&Kind{Name: "total_fastq",
 				return fmt.Sprintf("accepted record %d cannot be written", i)
 			}
 			want := L(L(I(0), fqRecVal(rec.Name, rec.Sequence, rec.Quals)))
+			written := slices.Clone(buf.Bytes())
 			if got := fqItems(&buf, 4); got.String() != want.String() {
 				return fmt.Sprintf("accepted record %d is not a fixed point: written and read back it is %s, want %s", i, clip(got.String()), clip(want.String()))
 			}
+			if mt, ok := try1(func() []byte { b, _ := rec.MarshalText(); return b }); !ok || !bytes.Equal(mt, written) {
+				return fmt.Sprintf("accepted record %d: MarshalText panics or differs from Write", i)
+			}
+		}
+		if !isErr && immediate.String() != out.String() {
+			return "accepted records are not stable: a record changed after it was delivered (items encoded when yielded differ from the same items encoded after the iteration)"
 		}
 		return ""
 	}})
@@ -1055,6 +1086,64 @@ var kSamLines = register(&Kind{Name: "sam_lines",
 				return fmt.Sprintf("item %d of the file differs from what its line gives alone: a neighbour of a line is not intact", i)
 			}
 		}
+		// the same through the other three entry points: Reader, File, FileHeader
+		text := totSamLinesText(lines)
+		rd := samRunReader(text, false)
+		if rd.K != 'l' {
+			return "Reader: " + clip(rd.String())
+		}
+		var wantRec []Val // records and errors of the per-line results, headers dropped
+		for _, it := range want {
+			if totSamItemClass(it) != clsHeader {
+				if it.String() == samErrItem.String() {
+					wantRec = append(wantRec, samErrItem)
+				} else {
+					wantRec = append(wantRec, L(I(0), it.At(1).At(1)))
+				}
+			}
+		}
+		if samItemsVal(wantRec).String() != rd.String() {
+			return "sam.Reader does not give, line by line, the records and errors of the lines (a malformed line must yield one error and leave its neighbours intact)"
+		}
+		dir, err := os.MkdirTemp("", "verif-c11-")
+		if err != nil {
+			panic(badCase("cannot create a temp dir"))
+		}
+		defer os.RemoveAll(dir)
+		path := filepath.Join(dir, "in.sam")
+		if err := os.WriteFile(path, text, 0o644); err != nil {
+			panic(badCase("cannot write the temp file"))
+		}
+		var fileItems, fileHdrItems []Val
+		for s, err := range sam.File(path) {
+			if err != nil {
+				fileItems = append(fileItems, samErrItem)
+			} else {
+				fileItems = append(fileItems, samRecOnly(s))
+			}
+			if len(fileItems) > len(text)+10 {
+				break
+			}
+		}
+		for sh, err := range sam.FileHeader(path) {
+			switch {
+			case err != nil:
+				fileHdrItems = append(fileHdrItems, samErrItem)
+			case sh.H != nil:
+				fileHdrItems = append(fileHdrItems, samHdrItem(*sh.H))
+			default:
+				fileHdrItems = append(fileHdrItems, samRecItem(sh.S))
+			}
+			if len(fileHdrItems) > len(text)+10 {
+				break
+			}
+		}
+		if samItemsVal(fileItems).String() != rd.String() {
+			return "sam.File does not give what sam.Reader gives on the same lines"
+		}
+		if samItemsVal(fileHdrItems).String() != out.String() {
+			return "sam.FileHeader does not give what sam.ReaderHeader gives on the same lines"
+		}
 		return ""
 	}})
 
@@ -1215,6 +1304,26 @@ func init() {
 		}
 		nU, nM := c.Pick(500, 6000), c.Pick(900, 10000)
 		for _, g := range gens {
+			// many small records, stream longer than the readers' buffers (records are
+			// retained until the end of the iteration), and one very long line
+			if g.name != "smtext" {
+				for _, total := range []int{6000, 140000} {
+					if g.name == "newick" && total > 40000 {
+						continue
+					}
+					if d := manyRecordsText(c, g.name, total); d != nil {
+						run(g, d, false, "many-records")
+					}
+				}
+				for _, ln := range []int{4097, 70000} {
+					if g.name == "newick" && ln > 8192 {
+						continue
+					}
+					if d := streamLongLine(c, g.name, ln); d != nil {
+						run(g, d, false, "long-line")
+					}
+				}
+			}
 			for _, t := range []string{"", "\n", "\r", "\r\n", "\t", ">", "@", "+", ";", "(", ")", ":", "'", "#", "*", "\x00", "\xff"} {
 				run(g, []byte(t), false, "literal")
 				run(g, []byte(t), true, "literal")
